@@ -9,7 +9,7 @@ from ..gen import G
 ID = "C06"
 LEVEL = "exploration"
 RULE = ("cases are expression trees over numeric literals of the four kinds (boundary values, incl. an int literal too wide for "
-        "32 bits), + - * / % << >> & | xor, unary minus, `!` on bool literals, `get`, `(x) or y` over nil / literals, optionally "
+        "32 bits, and alternative spellings of one value: leading zeros, digit separators, hexadecimal / binary forms, `f` suffix and trailing-zero floats), + - * / % << >> & | xor, unary minus, `!` on bool literals, `get`, `(x) or y` over nil / literals, optionally "
         "inside a list literal; every tree is rendered FOLDED (literals inline) and UNFOLDED (each literal first bound to a "
         "variable of its kind). Enumerated: all depth-1 trees over the full leaf set and all depth-2 trees over a reduced leaf "
         "set (thorough) / a seeded third of them (quick); random: Hypothesis trees to depth 3. Oracle (metamorphic): with typed "
@@ -23,6 +23,11 @@ L = lambda k, v: ("lit", k, v)
 LEAVES = [L("int", v) for v in (0, 1, 2, 3, 7, 31, 32, 2147483647)] + [L("wide", 2147483648)] + \
          [L("bigint", v) for v in (0, 1, 5, 2 ** 31, 2 ** 127 - 1)] + [L("float", v) for v in (0.0, 0.5, 1.5, 2.0, 0.1, 16777216.5, 3000000000.5, 1e300)] + \
          [L("byte", v) for v in (0, 1, 2, 255)]
+# the same values in the other spellings the grammar accepts: the folder works on the literal's TEXT
+SPELLED = [("lit", "int", 7, "007"), ("lit", "int", 8, "010"), ("lit", "int", 1000, "1_000"), ("lit", "int", 10, "0_1_0"), ("lit", "int", 255, "0xFF"), ("lit", "int", 7, "0x07"),
+           ("lit", "int", 0, "000"), ("lit", "bigint", 42, "B0042"), ("lit", "bigint", 255, "B0xff"), ("lit", "bigint", 1000, "B1_000"), ("lit", "bigint", 0, "B00"),
+           ("lit", "float", 3.0, "3f"), ("lit", "float", 7.0, "007F"), ("lit", "float", 7.5, "007.5"), ("lit", "float", 1.5, "1.50"), ("lit", "float", 1000.25, "1_000.2_5"),
+           ("lit", "byte", 5, "0b0000101"), ("lit", "byte", 5, "0b1_01"), ("lit", "byte", 0, "0b000")]
 SMALL = [L("int", 1), L("int", 2147483647), L("bigint", 2), L("float", 1.5), L("byte", 255), L("int", 0)]
 ARITH = ["+", "-", "*", "/", "%"]
 BITS = ["&", "|", "xor", "<<", ">>"]
@@ -85,6 +90,8 @@ def ev(e):
 
 
 def lit_src(e):
+    if len(e) > 3:
+        return e[3]           # an alternative source spelling of the same value (leading zeros, underscores, hex, `f` suffix)
     if e[1] == "wide":
         return str(e[2])
     if e[1] == "bool":
@@ -322,8 +329,8 @@ def chunks(l, n):
 
 
 def enumerated(tier, seed):
-    d1 = depth1(LEAVES)
-    d2 = depth2(SMALL)
+    d1 = depth1(LEAVES) + [t for t in depth1(SPELLED + SMALL) if any(len(x) > 3 for x in t[1:] if isinstance(x, tuple)) or (t[0] == "bin" and any(len(x) > 3 for x in t[2:]))]
+    d2 = depth2(SMALL) + [t for t in depth2(SPELLED[:3] + SPELLED[7:8] + SPELLED[11:12] + SPELLED[16:17]) if "0" in str(t)]
     if tier == "quick":
         import random
         d2 = random.Random(seed).sample(d2, len(d2) // 3)
@@ -338,7 +345,7 @@ def tree_case(draw):
 
     def gen(depth):
         if depth == 0 or g.chance(20):
-            return g.choice(LEAVES)
+            return g.choice(LEAVES) if g.chance(82) else g.choice(SPELLED)
         ch = g.weighted([(8, "bin"), (2, "neg"), (1, "get"), (1, "or")])
         if ch == "bin":
             return ("bin", g.choice(ARITH + BITS), gen(depth - 1), gen(depth - 1))
